@@ -17,6 +17,8 @@ def place_locals(pl):
 def op_locals(op):
     if op["k"] in ("copy", "move"):
         yield from place_locals(op["pl"])
+    elif op["k"] == "fnid":
+        yield from op_locals(op["op"])
 
 
 def rv_locals(rv):
@@ -70,6 +72,8 @@ class BodyInfo:
         # what `next` hands out is always tracked per path: the rules refine it (adapted elements, filter facts)
         for blk in fn.blocks:
             t = blk["term"]
+            if t["k"] == "call" and t.get("recv_local") is not None:
+                dyn.add(t["recv_local"])      # a slice iterator advanced in place (interp.Engine.known_slice_next)
             if t["k"] == "call" and t.get("callee") and t["callee"].get("def") == "core::iter::Iterator::next" and not t["dst"]["p"]:
                 dyn.add(t["dst"]["l"])
         changed = True
@@ -187,6 +191,14 @@ class BodyInfo:
         k = op["k"]
         if k in ("copy", "move"):
             return self.place(op["pl"], val)
+        if k == "fnid":
+            # which of the candidate fn items a fn pointer is (inline.Inliner._devirtualise)
+            e = self.operand(op["op"], val)
+            while e[0] == "cast":
+                e = e[2]
+            if e[0] == "fn":
+                return const(op["cands"].index(e[1]) if e[1] in op["cands"] else len(op["cands"]))
+            return ("unk", "fnid")
         if k == "const":
             if "prom" in op:
                 v = promoted_value(self.fn.facts, op["prom"][0], op["prom"][1])
@@ -196,6 +208,10 @@ class BodyInfo:
                 return ("fn", op["fn"]["def"])
             if "int" in op:
                 return const(op["int"])
+            if op.get("desc") and (op.get("ty") or {}).get("k") in ("array", "slice", "tuple"):
+                v = named_const_value(getattr(self.fn, "facts", None), op["desc"])
+                if v is not None:
+                    return v
             return const(None, op.get("desc"))
         return ("unk", "op")
 
@@ -274,6 +290,30 @@ class BodyInfo:
 
 
 _prom_cache = {}
+
+
+def named_const_value(facts, desc):
+    """Value of a named constant of the analysed crate whose body builds an aggregate of constants (`const KINDS: [Kind; 2]`)."""
+    import re
+    if facts is None:
+        return None
+    name = re.sub(r"::<[^>]*>", "", desc)
+    key = (id(facts), "const", name)
+    if key in _prom_cache:
+        return _prom_cache[key]
+    v = None
+    hits = [c for path, c in facts.consts.items() if path == name or path.endswith("::" + name)]
+    if len(hits) == 1 and len(hits[0]["blocks"]) == 1 and hits[0]["blocks"][0]["term"]["k"] == "return":
+        from mir import Fn
+        from expr import mentions
+        pf = Fn(dict(hits[0], argc=0), facts)
+        bi = BodyInfo(pf)
+        if 0 not in bi.dyn:
+            v = bi.local_value(0, {})
+            if v[0] != "agg" or mentions(v, lambda x: x[0] in ("unk", "param")):
+                v = None
+    _prom_cache[key] = v
+    return v
 
 
 def promoted_value(facts, fnpath, idx):
